@@ -87,6 +87,17 @@ pub struct WorldResult<R> {
   pub alive_tasks_after: usize,
 }
 
+thread_local! {
+  static KEEP: std::cell::RefCell<Vec<Box<dyn std::any::Any>>> = std::cell::RefCell::new(Vec::new());
+}
+
+/// Keeps a value (typically a `Link`) alive until the current world ends, then drops it. Use this
+/// instead of `mem::forget`: a forgotten `Link` leaks its pumps' `AbortHandle`s, which keep the
+/// world's runtime handle — and its epoll/eventfd descriptors — alive for the rest of the process.
+pub fn keep<T: 'static>(t: T) {
+  KEEP.with(|k| k.borrow_mut().push(Box::new(t)));
+}
+
 /// Run one scenario on a fresh deterministic runtime. Panics in any task are collected.
 pub fn run<F, Fut, R>(seed: u64, f: F) -> WorldResult<R>
 where
@@ -99,7 +110,19 @@ where
     .start_paused(true)
     .rng_seed(tokio::runtime::RngSeed::from_bytes(&seed.to_le_bytes()))
     .build()
-    .expect("runtime");
+    .unwrap_or_else(|e| {
+      // diagnostic for descriptor exhaustion: say what is open
+      let mut kinds: std::collections::BTreeMap<String, usize> = Default::default();
+      if let Ok(rd) = std::fs::read_dir("/proc/self/fd") {
+        for ent in rd.flatten() {
+          let t = std::fs::read_link(ent.path()).map(|p| p.to_string_lossy().split(':').next().unwrap_or("").to_string()).unwrap_or_default();
+          *kinds.entry(t).or_default() += 1;
+        }
+      }
+      eprintln!("MACHINERY: cannot build a runtime: {} (open descriptors by kind: {:?})", e, kinds);
+      flag_machinery_error();
+      panic!("runtime: {}", e)
+    });
   // every scenario is bounded in virtual time: a scenario that never finishes (a call blocked for
   // good while timers keep firing) must not hang the explorer
   let result = match std::panic::catch_unwind(std::panic::AssertUnwindSafe(|| {
@@ -117,6 +140,7 @@ where
     Err(_) => None,
   };
   let alive = rt.metrics().num_alive_tasks();
+  KEEP.with(|k| k.borrow_mut().clear());
   rt.shutdown_background();
   tick_progress();
   WorldResult { result, panics: take_panics(), alive_tasks_after: alive }
